@@ -4,7 +4,8 @@
 From Coq Require Import String.
 From PX.Lib Require Import Base PyStr PyInt Regex Xml XmlSer.
 From PX.Gen Require Import MapRegexes.
-From PX.Model Require Import Show Path Segment Syntax MapLoad MapTree Units.
+From PX.Model Require Import Show Path Segment Syntax MapLoad MapTree Element Units.
+From PX.Spec Require C15_link.
 
 Definition menv := list (str * xml).
 
@@ -110,9 +111,131 @@ Definition unit_mapindex (e : menv) (args : list str) : str :=
   | None => sl "?nomaps"
   end.
 
+(* ---- element / composite / segment validation ---- *)
+Definition show_hev (h : hev) : str :=
+  match h with
+  | HAddEle i => sep COMMA [sl "A"; show_ostr (ei_data_ele i); show_Z (ei_seq i); show_bool (ei_parent_is_composite i);
+                            show_Z (ei_parent_seq i)]
+  | HEleErr code msg v rd => sep COMMA [sl "E"; code; show_hex msg; show_ostr v; show_ostr rd]
+  end.
+
+Definition show_valid (r : result (bool * list hev)) : str :=
+  show_result (fun p => sep BAR (show_bool (fst p) :: map show_hev (snd p))) r.
+
+Definition parse_nref (a : str) : nref := match a with [] => [] | _ => map arg_nat (split DOTC a) end.
+
+(* the node at a reference that goes into a segment: (segment node, child index, component index) *)
+Definition seg_and_rest (m : xmap) (r : nref) : option (segm * list nat) :=
+  (fix go (ns : list node) (r0 : nref) : option (segm * list nat) :=
+     match r0 with
+     | [] => None
+     | i :: rest =>
+         match nth_error ns i with
+         | Some (NSeg sg) => Some (sg, rest)
+         | Some (NLoop _ _ _ _ _ _ pm) => go (pm_nodes pm) rest
+         | None => None
+         end
+     end) (root_nodes m) r.
+
+(* args = map, exclude, charset, then per case: segment reference, delimiters, segment text *)
+Fixpoint segvalid_cases (m : xmap) (args : list str) : list str :=
+  match args with
+  | r :: dl :: text :: rest =>
+      (match seg_and_rest m (parse_nref r) with
+       | Some (sn, []) => let d := mk_delims dl in show_valid (seg_is_valid d (ctx_of m) sn (parse_seg d text))
+       | _ => sl "?ref"
+       end) :: segvalid_cases m rest
+  | _ => []
+  end.
+
+Definition unit_segvalid (e : menv) (args : list str) : str :=
+  match args with
+  | name :: exclude :: charset :: cases =>
+      match load_named e name exclude charset with
+      | Raise x => show_exn x
+      | Ok m => join NL (segvalid_cases m cases)
+      end
+  | _ => sl "?args"
+  end.
+
+(* element-level: per case: node reference (into a segment, possibly into a composite), "N" (None) or "V"<components joined by US> *)
+Fixpoint elevalid_cases (m : xmap) (args : list str) : list str :=
+  match args with
+  | r :: dv :: rest =>
+      let d : edata := match dv with
+                       | c :: body => if Ascii.eqb c "V"%char then Some (split US body) else None
+                       | [] => None
+                       end in
+      (match seg_and_rest m (parse_nref r) with
+       | Some (sn, [i]) =>
+           match nth_error (s_children sn) i with
+           | Some (SubE e0) => show_valid (elem_is_valid ":"%char (ctx_of m) e0 None d [])
+           | Some (SubC c0) => show_valid (comp_is_valid ":"%char (ctx_of m) c0 d)
+           | None => sl "?ref"
+           end
+       | Some (sn, [i; j]) =>
+           match nth_error (s_children sn) i with
+           | Some (SubC c0) => match nth_error (c_children c0) j with
+                               | Some e0 => show_valid (elem_is_valid ":"%char (ctx_of m) e0 (Some (c_usage c0, c_seq c0)) d [])
+                               | None => sl "?ref"
+                               end
+           | _ => sl "?ref"
+           end
+       | _ => sl "?ref"
+       end) :: elevalid_cases m rest
+  | _ => []
+  end.
+
+Definition unit_elevalid (e : menv) (args : list str) : str :=
+  match args with
+  | name :: exclude :: charset :: cases =>
+      match load_named e name exclude charset with
+      | Raise x => show_exn x
+      | Ok m => join NL (elevalid_cases m cases)
+      end
+  | _ => sl "?args"
+  end.
+
+(* C15 oracle: per case: element reference, "N" or "V"<value>: the codes the definition implies *)
+Fixpoint c15_cases (m : xmap) (args : list str) : list str :=
+  match args with
+  | r :: dv :: rest =>
+      let v : option str := match dv with c :: body => if Ascii.eqb c "V"%char then Some body else None | [] => None end in
+      (match seg_and_rest m (parse_nref r) with
+       | Some (sn, [i]) =>
+           match nth_error (s_children sn) i with
+           | Some (SubE e0) => show_result (sep COMMA) (C15_link.implied_codes (ctx_of m) e0 None [] v)
+           | _ => sl "?ref"
+           end
+       | Some (sn, [i; j]) =>
+           match nth_error (s_children sn) i with
+           | Some (SubC c0) => match nth_error (c_children c0) j with
+                               | Some e0 => show_result (sep COMMA) (C15_link.implied_codes (ctx_of m) e0 (Some (c_usage c0, c_seq c0)) [] v)
+                               | None => sl "?ref"
+                               end
+           | _ => sl "?ref"
+           end
+       | _ => sl "?ref"
+       end) :: c15_cases m rest
+  | _ => []
+  end.
+
+Definition unit_c15_spec (e : menv) (args : list str) : str :=
+  match args with
+  | name :: exclude :: charset :: cases =>
+      match load_named e name exclude charset with
+      | Raise x => show_exn x
+      | Ok m => join NL (c15_cases m cases)
+      end
+  | _ => sl "?args"
+  end.
+
 Definition dispatch_env (e : menv) (unit : str) (args : list str) : str :=
   if str_eqb unit (sl "mapdump") then unit_mapdump e args
   else if str_eqb unit (sl "mappaths") then unit_mappaths e args
   else if str_eqb unit (sl "getnode") then unit_getnode e args
   else if str_eqb unit (sl "mapindex") then unit_mapindex e args
+  else if str_eqb unit (sl "segvalid") then unit_segvalid e args
+  else if str_eqb unit (sl "elevalid") then unit_elevalid e args
+  else if str_eqb unit (sl "c15_spec") then unit_c15_spec e args
   else dispatch unit args.
